@@ -1,5 +1,5 @@
 """C14 — exit status and every report format tell the same story.  All ordered file sets up to a size bound
-over a 10-file alphabet x severity configurations x {gated, -ap, --fix} x output formats, with --json, --junit
+over an 11-file alphabet x severity configurations x {gated, -ap, --fix} x output formats, with --json, --junit
 and --quality_report requested in the same run of the real main(); every artefact is parsed back into
 (file, rule, line, solution[, severity]) and compared with the ground set taken from the rule objects."""
 import itertools
@@ -25,6 +25,7 @@ FILES = {
     "mixed": ["", "ENTITY mixed is", "end entity;", "", "-- " + "y" * 130, ""],
     "parsefail": ["entity pf is", "  port (", "end architecture;;", "architecture of is begin"],
     "empty": [""],
+    "zerobyte": None,  # a file of zero bytes: reported by source_file_001 at line 0
     "tagged": ["", "-- vsg_off", "ENTITY tagged IS", "END ENTITY tagged;", "-- vsg_on", "", "entity  t2 is", "end entity t2;", ""],
     "perfile": ["", "ENTITY perfile IS", "END ENTITY perfile;", ""],
     # one rule reporting twice on one line with two different solutions (signal_004: one violation per identifier)
@@ -47,7 +48,8 @@ def setup_files(d, names):
     for i, n in enumerate(names):
         p = os.path.join(d, f"{i}_{n}.vhd")
         with open(p, "w") as f:
-            f.write("\n".join(FILES[n]) + "\n")
+            if FILES[n] is not None:
+                f.write("\n".join(FILES[n]) + "\n")
         paths.append(p)
     return paths
 
@@ -289,7 +291,7 @@ def main(tier):
     m = explore.run(its, execute, horizon=300.0, label=PROP, chunk=8)
     return report.finish(
         PROP, tier, "exploration", [m], t0,
-        "ordered file sets of size 1-" + ("2" if tier == "quick" else "3") + " over the alphabet {clean, phase-1 errors, late-phase errors, warnings only, mixed, parse failure, empty, code-tagged, per-file configured, one rule twice on one line} "
+        "ordered file sets of size 1-" + ("2" if tier == "quick" else "3") + " over the alphabet {clean, phase-1 errors, late-phase errors, warnings only, mixed, parse failure, empty, zero bytes, code-tagged, per-file configured, one rule twice on one line} "
         "x severity configurations {default, rule->Warning, rule->user-defined error type, rule->user-defined warning type, global Warning} x {gated, -ap, --fix} x {vsg, syntastic, summary}, each one run of "
         "the real main() with --json --junit --quality_report; each artefact parsed back and compared with the ground set (rule.violations of each file processed alone by the real apply_rules); "
         "counts against rows; exit status 0 iff no error-type violation and no file failed; non-trivial = runs with at least one violation",
